@@ -11,7 +11,7 @@
 
     The hidden mutable state behind [target.handle] / [tx] / [stmt] is the explicit [world]; every call
     that can change it takes and returns it. *)
-From Coq Require Import ZArith NArith List Bool String.
+From Coq Require Import ZArith NArith List Bool String Ascii.
 From Texel Require Import Gpkg.Model.
 Import ListNotations.
 Open Scope Z_scope.
@@ -236,14 +236,85 @@ Definition op_UpdateGeometryExtent (w : world) (name : string) (e : option ext) 
 Definition go_notnull (c : column) : Z := Z.b2z (c_notnull c).
 Definition go_pk (c : column) : Z := Z.of_N (c_pk c).
 
+(** strings.ReplaceAll(s, old, new) for an [old] of ONE byte below 0x80 (the translator accepts nothing else): Go replaces
+    the non-overlapping occurrences from the left; occurrences of one byte cannot overlap, and a byte below 0x80 is never
+    part of a multi-byte UTF-8 sequence, so every such byte is replaced.  Strings are byte strings on both sides. *)
+Fixpoint op_ReplaceAll1 (s : string) (old : ascii) (new : string) : string :=
+  match s with
+  | EmptyString => EmptyString
+  | String c r => if Ascii.eqb c old then String.append new (op_ReplaceAll1 r old new) else String c (op_ReplaceAll1 r old new)
+  end.
+
+(** ** SQL identifiers (fix a631213, F20).  A column name is written in double quotes, a double quote in the name doubled:
+    any name -- an SQL keyword ("order"), a name with a space, a dash, a leading digit, a quote, non-ASCII bytes -- is
+    then ONE identifier token that stands for exactly that name ([read_ident] below is SQLite's reading of such a token). *)
+Definition dquote : ascii := """"%char.
+
+Fixpoint double_quotes (s : string) : string :=
+  match s with
+  | EmptyString => EmptyString
+  | String c r => if Ascii.eqb c dquote then String c (String c (double_quotes r)) else String c (double_quotes r)
+  end.
+
+(** the model of [quoteIdentifier] *)
+Definition quote_ident (s : string) : string := String dquote (String.append (double_quotes s) (String dquote EmptyString)).
+
+(** how SQL reads a quoted identifier: after the opening quote, up to the first double quote that is not followed by
+    another one; a doubled quote stands for one quote character.  Result: the name and the text after the closing quote
+    ([None]: the closing quote is missing). *)
+Fixpoint read_ident_body (s : string) : option (string * string) :=
+  match s with
+  | EmptyString => None
+  | String c r =>
+      if Ascii.eqb c dquote then
+        match r with
+        | String c2 r2 =>
+            if Ascii.eqb c2 dquote
+            then match read_ident_body r2 with Some (n, rest) => Some (String dquote n, rest) | None => None end
+            else Some (EmptyString, r)
+        | EmptyString => Some (EmptyString, EmptyString)
+        end
+      else match read_ident_body r with Some (n, rest) => Some (String c n, rest) | None => None end
+  end.
+
+Definition read_ident (s : string) : option (string * string) :=
+  match s with
+  | String c r => if Ascii.eqb c dquote then read_ident_body r else None
+  | EmptyString => None
+  end.
+
+(** the name a text that is exactly one quoted identifier stands for *)
+Definition unquote_ident (s : string) : option string :=
+  match read_ident s with Some (n, EmptyString) => Some n | _ => None end.
+
+(** a list of quoted identifiers separated by [sep] (one character that is not a double quote: the comma of the column
+    lists), read back; fuel = the length of the text is always enough *)
+Fixpoint read_ident_list (fuel : nat) (sep : ascii) (s : string) : option (list string) :=
+  match fuel with
+  | O => None
+  | S fuel' =>
+      match read_ident s with
+      | Some (n, EmptyString) => Some [n]
+      | Some (n, String c r) =>
+          if Ascii.eqb c sep
+          then match read_ident_list fuel' sep r with Some l => Some (n :: l) | None => None end
+          else None
+      | None => None
+      end
+  end.
+
 (** a column definition of CREATE TABLE as createSQL writes it *)
 Definition col_sql (c : column) : string :=
-  let p := String.append (String.append (c_name c) " ") (c_type c) in
+  let p := String.append (String.append (quote_ident (c_name c)) " ") (c_type c) in
   let p := if c_notnull c then String.append p " NOT NULL" else p in
   if N.eqb (c_pk c) 1 then String.append p " PRIMARY KEY" else p.
 
-(** the column list of the INSERT statement: the non-geometry columns in table order, then the geometry column *)
+(** the column list of the INSERT statement: the non-geometry columns in table order, then the geometry column; in the
+    text every name is a quoted identifier ([read_ident_list] reads the names back: [quoted_names_read_back]) *)
 Definition insert_columns (t : table) : list string := map c_name (attr_cols t) ++ [t_gcol t].
+Definition insert_columns_sql (t : table) : list string := map quote_ident (insert_columns t).
+(** the column list of the SELECT statement: every table column, in table order *)
+Definition select_columns_sql (t : table) : list string := map quote_ident (map c_name (t_cols t)).
 
 (** what SQL's [INSERT INTO t(names) VALUES(vals)] stores: every table column gets the value listed under its
     name ([None]: a column that is not listed — NULL / default in SQL — or a value count that does not fit) *)
